@@ -493,13 +493,24 @@ impl Rule {
                 optimiser::coalesce(self.detection.expression, &self.detection.identifiers);
             self.detection.identifiers.clear();
         }
+        // NOTE: all(X) / of(X, n) count the entries of identifier X, so when X is not coalesced into
+        // the condition its entries must be optimised one by one, never merged or unwrapped
+        let mut counted = std::collections::HashSet::new();
+        counted_identifiers(&self.detection.expression, &mut counted);
         if options.shake {
             self.detection.expression = optimiser::shake(self.detection.expression);
             self.detection.identifiers = self
                 .detection
                 .identifiers
                 .into_iter()
-                .map(|(k, v)| (k, optimiser::shake(v)))
+                .map(|(k, v)| {
+                    let v = if counted.contains(&k) {
+                        per_entry(v, optimiser::shake)
+                    } else {
+                        optimiser::shake(v)
+                    };
+                    (k, v)
+                })
                 .collect();
         }
         if options.rewrite {
@@ -517,7 +528,14 @@ impl Rule {
                 .detection
                 .identifiers
                 .into_iter()
-                .map(|(k, v)| (k, optimiser::matrix(v)))
+                .map(|(k, v)| {
+                    let v = if counted.contains(&k) {
+                        per_entry(v, optimiser::matrix)
+                    } else {
+                        optimiser::matrix(v)
+                    };
+                    (k, v)
+                })
                 .collect();
         }
         self.optimised = true;
@@ -567,6 +585,41 @@ impl Rule {
             return Err(crate::Error::new(crate::error::Kind::Validation).with(errors.join(";")));
         }
         Ok(true)
+    }
+}
+
+// Collects the identifiers that the expression counts the entries of, i.e. all(X) and of(X, n).
+fn counted_identifiers(expression: &Expression, counted: &mut std::collections::HashSet<String>) {
+    match expression {
+        Expression::BooleanGroup(_, expressions) => {
+            for expression in expressions {
+                counted_identifiers(expression, counted);
+            }
+        }
+        Expression::BooleanExpression(left, _, right) => {
+            counted_identifiers(left, counted);
+            counted_identifiers(right, counted);
+        }
+        Expression::Match(_, expression) => {
+            if let Expression::Identifier(identifier) = &**expression {
+                counted.insert(identifier.clone());
+            }
+            counted_identifiers(expression, counted);
+        }
+        Expression::Negate(expression) | Expression::Nested(_, expression) => {
+            counted_identifiers(expression, counted);
+        }
+        _ => {}
+    }
+}
+
+// Optimises the entries of a group individually so that the group keeps its entries.
+fn per_entry(expression: Expression, optimise: fn(Expression) -> Expression) -> Expression {
+    match expression {
+        Expression::BooleanGroup(symbol, expressions) => {
+            Expression::BooleanGroup(symbol, expressions.into_iter().map(optimise).collect())
+        }
+        expression => optimise(expression),
     }
 }
 
